@@ -354,6 +354,9 @@ def _run_yaml(case):
         depth = case["d"]
         orig = {"tree": snap(root), "rank_ids": [], "shape": [], "name": ""}
     orig["depth"] = depth
+    # the leaf default the object really has (some transforms, e.g. unflattenRanks, do not carry it)
+    odflt = Payload.get(obj.getDefault()) if is_tensor and depth >= 1 else case["dflt"]
+    orig["dflt"] = _num(odflt)
     case["orig"] = orig
     impl, side, errs = {}, {}, {}
 
@@ -390,7 +393,7 @@ def _run_yaml(case):
             if is_tensor:
                 loaded, e = _try(lambda: Tensor.fromYAMLfile(path))
             else:
-                loaded, e = _try(lambda: Fiber.fromYAMLfile(path, default=case["dflt"]))
+                loaded, e = _try(lambda: Fiber.fromYAMLfile(path, default=odflt))
             if e:
                 errs["load"] = e
     if loaded is None:
@@ -557,8 +560,9 @@ def _attribute(case, clause):
         tup = _has_tuple(orig.get("tree")) or any(isinstance(x, list) for x in orig.get("shape", []))
         if clause == "yaml-loads" and tup:
             return CLASSES[2]
-        if clause in ("yaml-equal", "dict-roundtrip-equal") and case["dflt"] != 0 and \
-                any(v == 0 or v == case["dflt"] for v in _leaves(orig.get("tree"))):
+        odflt = orig.get("dflt", 0)
+        if clause in ("yaml-equal", "dict-roundtrip-equal") and odflt != 0 and \
+                any(v == 0 or v == odflt for v in _leaves(orig.get("tree"))):
             return CLASSES[3]
         if (clause == "name" and case["kind"] == "tensor" and orig.get("depth", 0) >= 1
                 and orig.get("name", "") != "" and (impl.get("loaded") or {}).get("name") == ""):
